@@ -295,7 +295,12 @@ pub fn check_c01(tier: Tier) -> Report {
     for ((name, text, _), ((codes, sig), p, b)) in script_jobs.iter().zip(res) {
         script_codes.insert(name.clone(), codes);
         for (sig, entry) in [(sig, "execute_air"), (p, "parse"), (b, "beautify")] {
-            if let Some((sig, detail)) = sig {
+            if let Some((mut sig, detail)) = sig {
+                // a dead process on a deeply nested script is the stack running out (SIGABRT from the stack guard,
+                // or SIGSEGV): one signature per entry point, so that the listed finding cannot hide anything else
+                if name.contains("-nested-") && sig.starts_with("C01/process-died/") && (detail.contains("signal 6") || detail.contains("signal 11")) {
+                    sig = format!("C01/stack-exhausted-by-deep-nesting/{entry}");
+                }
                 let shown: String = text.chars().take(300).collect();
                 viols.push(Violation { signature: sig, description: format!("{entry} on script {name}: {shown}: {detail}"), replay: json!({"engine": "c01script", "entry": entry, "name": name, "air": text}) });
             }
@@ -342,6 +347,13 @@ pub fn replay(v: &Value) -> i32 {
                     "beautify" => answer_sig(&w.ask(&json!({"op": "beautify", "text": air})), "beautify"),
                     _ => run_to_quiescence(&mut w, air, 12).1,
                 }
+                .map(|(sg, detail)| {
+                    if v["name"].as_str().unwrap_or("").contains("-nested-") && sg.starts_with("C01/process-died/") && (detail.contains("signal 6") || detail.contains("signal 11")) {
+                        (format!("C01/stack-exhausted-by-deep-nesting/{}", v["entry"].as_str().unwrap_or("")), detail)
+                    } else {
+                        (sg, detail)
+                    }
+                })
             }
         };
         seen.push(sig.map(|s| s.0).unwrap_or_else(|| "no crash".into()));
